@@ -331,8 +331,20 @@ impl Check for C02 {
             st.count(&format!("edit_tried:{}", e));
         }
         let name = default_name(&p);
-        for (label, annot) in [("annotated", &all_annot as &dyn Fn(AnnotSite) -> bool), ("annotations erased", &no_annot)] {
-            let text = print_with(&p, &name, annot, None, None, None);
+        // the same program with its top-level items reversed / shuffled: initialisation order must
+        // still put every global before its readers (reads through if/case arms, closures, calls)
+        let n_items = p.items.len();
+        let reversed: Vec<usize> = (0..n_items).rev().collect();
+        let mut shuffled: Vec<usize> = (0..n_items).collect();
+        rng.shuffle(&mut shuffled);
+        let renderings: [(&str, &dyn Fn(AnnotSite) -> bool, Option<&[usize]>); 4] = [
+            ("annotated", &all_annot, None),
+            ("annotations erased", &no_annot, None),
+            ("annotated, top-level items reversed", &all_annot, Some(&reversed)),
+            ("annotations erased, top-level items shuffled", &no_annot, Some(&shuffled)),
+        ];
+        for (label, annot, order) in renderings {
+            let text = print_with(&p, &name, annot, None, None, order);
             st.count("perturbed_programs_compiled");
             match compile_budgeted(&text) {
                 Compiled::Err { .. } => st.count("perturbed:rejected"),
@@ -385,7 +397,7 @@ impl Check for C02 {
         }
         Finish {
             level: "exploration",
-            rule: "almost-well-typed programs: a well-typed generated program with 1-3 type-perturbing edits on the abstract program (sub-expression replaced by a literal of another type, call arguments swapped/dropped/added/retyped, field renamed, else arm dropped, variant payload changed, binary operand retyped, callee replaced by a non-function, declared type of a binder changed, a use moved outside its scope or before its declaration), rendered fully annotated and with all annotations erased; plus hand-written probes of inference weak spots. Programs the compiler accepts are executed under luamon with strict monitors: any Lua error of class arith/call/index/compare/concat or a failed preamble assertion, a string coerced in arithmetic, a missing blob field, an uninitialised variable read is a violation; <=> failure, <!>, budgets and stack overflow are Sylt-defined outcomes. Non-trivial: accepted and executed perturbed programs; distinct by source hash.".into(),
+            rule: "almost-well-typed programs: a well-typed generated program with 1-3 type-perturbing edits on the abstract program (sub-expression replaced by a literal of another type, call arguments swapped/dropped/added/retyped, field renamed, else arm dropped, variant payload changed, binary operand retyped, callee replaced by a non-function, declared type of a binder changed, a use moved outside its scope or before its declaration), rendered fully annotated and with all annotations erased, each also with the top-level items reversed / shuffled (definition order must not let a global be read before it is initialised); plus hand-written probes of inference weak spots. Programs the compiler accepts are executed under luamon with strict monitors: any Lua error of class arith/call/index/compare/concat or a failed preamble assertion, a string coerced in arithmetic, a missing blob field, an uninitialised variable read is a violation; <=> failure, <!>, budgets and stack overflow are Sylt-defined outcomes. Non-trivial: accepted and executed perturbed programs; distinct by source hash.".into(),
             extra: J::obj(),
             assumptions: vec!["luamon's strict monitors define 'dynamic type error'; rejected perturbed programs are only counted".into()],
             exhaustive: false,
